@@ -29,6 +29,8 @@ class Ob:
     grids = tuple(GRIDS)
     functions = ()          # qualified names of the real functions under this contract clause
     canary = False          # a deliberately false clause that must be refuted
+    bounded_only = False    # outside the reach of the real-arithmetic model (IEEE special values): the clause is only
+                            # evaluated natively on a stated scope; reported as a bounded stand-in, never as proved
     uf_congruence = False   # send sin/exp/log/psi to the solver as uninterpreted functions (needed only where two
                             # syntactically different arguments must be recognised as equal)
     tol_scale = 1.0
@@ -112,6 +114,7 @@ def run_symbolic(ob, grid, timeout_ms=20000, max_leaves=3000):
     """-> dict(status, leaves, results, counterexample, error)"""
     reset_ctx()
     prove.USE_UF[0] = bool(ob.uf_congruence)
+    prove.LAST_PROVED_SMT[0] = None
     t0 = time.time()
     out = dict(oid=ob.oid(grid), status=None, nleaves=0, results=[], cex=None, error=None, seconds=0.0,
                lia=0, backends={})
@@ -166,6 +169,7 @@ def run_symbolic(ob, grid, timeout_ms=20000, max_leaves=3000):
         out['error'] = '%s: %s\n%s' % (type(e).__name__, e, traceback.format_exc(limit=6))
     out['seconds'] = round(time.time() - t0, 3)
     out['lia'] = CTX.stats['lia_queries']
+    out['sample_smt'] = prove.LAST_PROVED_SMT[0]
     return out
 
 
